@@ -1476,3 +1476,65 @@ func specMetersInv(up4 *UP4, appSize, sessSize int64) bool {
 //@   loop 1 invariant C15.reset.l1.inv: specMetersInv(up4, specAppCells(), specSessCells())
 //@   loop 1 invariant C15.reset.l1.others: gsOthersSame("set", dynRef(up4.appMeterCellIDsPool), dynRef(up4.sessMeterCellIDsPool))
 //@   loop 1 invariant C04.reset.l1.gone: forall j int :: 0 <= j && j <= rangeidx ==> !has(up4.meters, meterID{qers[j].qerID, qers[j].fseID})
+
+// ---------------------------------------------------------------------------
+// C15 / C04 / C11: GTP tunnel peers (reference counted, IDs from a queue)
+// ---------------------------------------------------------------------------
+
+// Ghost log "p4table": one entry per ApplyTableEntries call (method and the entries slice).
+//@ func (c *P4rtClient) ApplyTableEntries(methodType p4.Update_Type, entries ...*p4.TableEntry) (err error)
+//@   trusted
+//@   requires C16.tablewrite.shape: forall k int :: 0 <= k && k < len(entries) ==> specEntryStruct(entries[k]) && oracleP4HasTable(entries[k].TableId) && oracleP4Allowed(entries[k].TableId, specEntryAction(entries[k]).ActionId) && (oracleP4NeedsPriority(entries[k].TableId) == (entries[k].Priority != 0))
+//@   appends p4table
+//@   ensures gfield("p4table.method", gentry("p4table", glen("p4table")-1)) == uint64(methodType) && gfield("p4table.ptr", gentry("p4table", glen("p4table")-1)) == uint64(sliceRef(entries)) && gfield("p4table.off", gentry("p4table", glen("p4table")-1)) == uint64(lo(entries)) && gfield("p4table.n", gentry("p4table", glen("p4table")-1)) == uint64(len(entries))
+
+// specTableEntry: the k-th TableEntry of the write logged as entry e of "p4table".
+func specTableEntry(e int, k int) *p4.TableEntry {
+	return elemAt[*p4.TableEntry](int(gfield("p4table.ptr", e)), int(gfield("p4table.off", e))+k)
+}
+
+func specPeerIDOK(id uint8) bool { return 2 <= id && int(id) < maxGTPTunnelPeerIDs+2 }
+
+// specPeersInv (C15): free IDs are in range and pairwise different; every allocated peer has an ID
+// in range that is not free and that no other peer has; every peer has its own usedBy set.
+func specPeersInv(up4 *UP4) bool {
+	return up4.tunnelPeerIDs != nil &&
+		forall(func(a int) bool {
+			return implies(lo(up4.tunnelPeerIDsPool) <= a && a < hi(up4.tunnelPeerIDsPool), specPeerIDOK(at(up4.tunnelPeerIDsPool, a)))
+		}) &&
+		forall(func(a, b int) bool {
+			return implies(lo(up4.tunnelPeerIDsPool) <= a && a < b && b < hi(up4.tunnelPeerIDsPool), at(up4.tunnelPeerIDsPool, a) != at(up4.tunnelPeerIDsPool, b))
+		}) &&
+		forall(func(k tunnelParams) bool {
+			return implies(has(up4.tunnelPeerIDs, k), specPeerIDOK(up4.tunnelPeerIDs[k].id) && up4.tunnelPeerIDs[k].usedBy != nil)
+		}) &&
+		forall(func(k tunnelParams, a int) bool {
+			return implies(has(up4.tunnelPeerIDs, k) && lo(up4.tunnelPeerIDsPool) <= a && a < hi(up4.tunnelPeerIDsPool), at(up4.tunnelPeerIDsPool, a) != up4.tunnelPeerIDs[k].id)
+		}) &&
+		forall(func(k1, k2 tunnelParams) bool {
+			return implies(has(up4.tunnelPeerIDs, k1) && has(up4.tunnelPeerIDs, k2) && k1 != k2,
+				up4.tunnelPeerIDs[k1].id != up4.tunnelPeerIDs[k2].id && dynRef(up4.tunnelPeerIDs[k1].usedBy) != dynRef(up4.tunnelPeerIDs[k2].usedBy))
+		})
+}
+
+func specPeerParams(up4 *UP4, f far) tunnelParams {
+	return tunnelParams{tunnelIP4Src: ip2int(up4.accessIP.IP), tunnelIP4Dst: f.tunnelIP4Dst, tunnelPort: f.tunnelPort}
+}
+
+func specPeerEnv(up4 *UP4) bool {
+	return up4 != nil && up4.accessIP != nil && len(up4.accessIP.IP) == 4 && up4.p4RtTranslator != nil && up4.p4client != nil
+}
+
+//@ func (up4 *UP4) addOrUpdateGTPTunnelPeer(far far) (err error)
+//@   requires specPeerEnv(up4) && !held(&up4.tunnelPeerMu)
+//@   requires specPeersInv(up4)
+//@   ensures C11.peer.add.lock: !held(&up4.tunnelPeerMu)
+//@   ensures C15.peer.add.inv: specPeersInv(up4)
+//@   ensures C15.peer.add.keep: forall k tunnelParams, r tnlPeerReference :: old[bool](has(up4.tunnelPeerIDs, k) && setHas(up4.tunnelPeerIDs[k].usedBy, r)) ==> has(up4.tunnelPeerIDs, k) && setHas(up4.tunnelPeerIDs[k].usedBy, r)
+//@   ensures C15.peer.add.ids: forall k tunnelParams :: old[bool](has(up4.tunnelPeerIDs, k)) ==> has(up4.tunnelPeerIDs, k) && up4.tunnelPeerIDs[k] == old[tunnelPeer](up4.tunnelPeerIDs[k])
+//@   ensures C15.peer.add.only: forall k tunnelParams :: k != specPeerParams(up4, far) ==> (has(up4.tunnelPeerIDs, k) <==> old[bool](has(up4.tunnelPeerIDs, k)))
+//@   ensures C04.peer.add.ok: err == nil ==> has(up4.tunnelPeerIDs, specPeerParams(up4, far)) && setHas(up4.tunnelPeerIDs[specPeerParams(up4, far)].usedBy, tnlPeerReference{far.fseID, far.farID})
+//@   ensures C15.peer.add.fail: err != nil ==> (has(up4.tunnelPeerIDs, specPeerParams(up4, far)) <==> old[bool](has(up4.tunnelPeerIDs, specPeerParams(up4, far))))
+//@   ensures C15.peer.add.others: gsOthersSame("set", old[int](dynRef(up4.tunnelPeerIDs[specPeerParams(up4, far)].usedBy)), 0)
+//@   ensures C04.peer.add.write: glen("p4table") <= old[int](glen("p4table"))+1 && (err == nil ==> glen("p4table") == old[int](glen("p4table"))+1)
+//@   ensures C04.peer.add.method: glen("p4table") == old[int](glen("p4table"))+1 ==> gfield("p4table.n", gentry("p4table", old[int](glen("p4table")))) == 1 && specTableEntry(gentry("p4table", old[int](glen("p4table"))), 0).TableId == p4constants.TablePreQosPipeTunnelPeers && (old[bool](has(up4.tunnelPeerIDs, specPeerParams(up4, far))) ==> gfield("p4table.method", gentry("p4table", old[int](glen("p4table")))) == uint64(p4.Update_MODIFY)) && (!old[bool](has(up4.tunnelPeerIDs, specPeerParams(up4, far))) ==> gfield("p4table.method", gentry("p4table", old[int](glen("p4table")))) == uint64(p4.Update_INSERT))
